@@ -236,8 +236,9 @@ def rule_T4(ctx):
     ctx.rule("T4", "every call of the resampling step is dominated by a test that a further data point exists (sibling call sites agree); subscripts of the retained path stay inside it", 4)
     f = prog.fn("AbstractSMCSampler.sample")
     cs = calls(f.node, name="self._resample_swarm")
-    if len(cs) < 2:
-        raise AnalysisError("T4: expected at least two call sites of _resample_swarm in AbstractSMCSampler.sample, found %d" % len(cs))
+    if not cs:
+        # no resampling at all (plain sequential importance sampling) cannot index past the path
+        ctx.ok("T4", "AbstractSMCSampler.sample: no call of _resample_swarm()", f.where(), "nothing to guard")
     for c in cs:
         tests = dominating_tests(f.node.body, c)
         ok = False
